@@ -497,6 +497,10 @@ def check(prop, tier, seed):
 
 
 def write_evidence(prop, tier, seed, spec, records, t0, gen, violations=0, known=(), replay_built=None, note=None):
+    # development runs restricted by VERIF_ONLY (seeded-change trials) must not overwrite the evidence
+    global EVID
+    if os.environ.get("VERIF_ONLY"):
+        EVID = os.path.join(BUILD, "evidence_trial")
     os.makedirs(EVID, exist_ok=True)
     discharged = [r for r in records if r.get("class") in ("discharged", "witness-ok", "guard-ok")]
     nontrivial = [r for r in records if r.get("class") == "discharged"]
